@@ -86,17 +86,18 @@ func (w *countingWriter) WriteHeader(code int) {
 }
 
 type idpWorld struct {
-	c      *Ctx
-	store  *faultStore
-	srv    *samlidp.Server
-	now    time.Time
-	sids   map[string]string // real session id -> label
-	sps    map[string]*saml.ServiceProvider
-	toks   []string
-	impl   []string
-	orc    []string
-	stored map[string]string // service name -> entity ID currently stored (harness's own bookkeeping for the oracle)
-	n      int
+	c          *Ctx
+	shortcutSP map[string]string // shortcut name -> entity ID it was last stored with (absent: unknown)
+	store      *faultStore
+	srv        *samlidp.Server
+	now        time.Time
+	sids       map[string]string // real session id -> label
+	sps        map[string]*saml.ServiceProvider
+	toks       []string
+	impl       []string
+	orc        []string
+	stored     map[string]string // service name -> entity ID currently stored (harness's own bookkeeping for the oracle)
+	n          int
 	// passwords: every password ever set for a user (sound under any fault pattern), and the current one while no fault has been injected
 	everPw  map[string]map[string]bool
 	curPw   map[string]*string
@@ -154,13 +155,13 @@ func (w *idpWorld) label(sid string) string {
 }
 
 type idpReq struct {
-	toks   []string
-	method string
-	path   string
-	body   []byte
-	ctype  string
-	cookie string
-	faults []string
+	toks          []string
+	method        string
+	path          string
+	body          []byte
+	ctype         string
+	cookie        string
+	faults        []string
 	expectSAMLFor string
 }
 
@@ -409,7 +410,15 @@ func (w *idpWorld) putShortcut(name, spID string, relay *string, suffix bool, ba
 		b = []byte("{not json")
 		toks = []string{"putShortcut", encStr(name), "-"}
 	}
-	w.do(idpReq{toks: toks, method: "PUT", path: "/shortcuts/" + name, body: b, faults: faults}, "putShortcut")
+	res := w.do(idpReq{toks: toks, method: "PUT", path: "/shortcuts/" + name, body: b, faults: faults}, "putShortcut")
+	if strings.HasPrefix(res, "2") && !bad {
+		if w.shortcutSP == nil {
+			w.shortcutSP = map[string]string{}
+		}
+		w.shortcutSP[name] = spID
+	} else if len(faults) > 0 || bad {
+		delete(w.shortcutSP, name) // unknown after a failed write
+	}
 }
 
 func credToks(user, pw string, has bool) []string {
@@ -486,7 +495,7 @@ func (w *idpWorld) shortcut(name, suffix, sid string, faults []string) string {
 	}
 	toks := joinToks([]string{"shortcut", encStr(name), encStr(suffix)}, w.cookieTok(sid))
 	res := w.do(idpReq{toks: toks, method: "GET", path: path, cookie: sid, faults: faults}, "shortcut")
-	w.checkSAML(res, "")
+	w.checkSAML(res, w.shortcutSP[name])
 	return res
 }
 
@@ -508,6 +517,10 @@ func (w *idpWorld) checkSAML(res, requested string) {
 	}
 	if !registered {
 		w.orc = append(w.orc, fmt.Sprintf("key=stale-registry step %d: a SAML response was issued towards %s, which is not the entity ID of any service stored at that moment", w.n, entity))
+	}
+	// … and towards the service the request was for, not another registered one
+	if requested != "" && entity != requested {
+		w.orc = append(w.orc, fmt.Sprintf("key=assertion-for-other-service step %d: the request was for %s, the SAML response is addressed to %s", w.n, requested, entity))
 	}
 }
 
